@@ -560,7 +560,7 @@ def prepare(case, oracle, rnd, budget=None):
 #    grammar (extended domain: spec_xwf but not spec_wf), even when the remaining members could match (the
 #    constructor may reject an out-of-grammar argument);
 #  * a ValueError after something was yielded, any other exception class, any missing or extra instant is a
-#    difference (a listed OPEN finding may then match it; nothing else is tolerated);
+#    difference (there is no open C01 finding: nothing is tolerated);
 #  * STALL ('T', no answer of the real generator within IMPL_TIMEOUT although the model terminated) and an
 #    out-of-fuel / timed-out specification are INCONCLUSIVE: counted per class, bounded by thresholds.
 TOLERANCE_TEXT = (
@@ -616,8 +616,9 @@ def first_week_start(case):
 
 
 def week_before_year1(case):
-    """WEEKLY + BYSETPOS whose first WKST-week begins before 0001-01-01 (finding F-C01-year1-setpos-week; the
-    loop theorems carry the complementary hypothesis 1 <= ws0)."""
+    """WEEKLY + BYSETPOS whose first WKST-week begins before 0001-01-01 (the class of the fixed finding
+    F-C01-year1-setpos-week, 3426f68; the BYEASTER branch of full_guard still carries 1 <= ws0, which 1584 <= year
+    implies)."""
     if case["freq"] != 2 or not case.get("bysetpos"):
         return False
     try:
@@ -634,18 +635,16 @@ def last_week_start(wkst):
 
 def in_proved_family(case):
     """STATISTIC ONLY, an approximation from the rule alone (mirrors RRFullTop.full_guard / RRSubSpAll.sfam_sa
-    WITHOUT their n-dependent bounds: the number of passes a run makes is not known here; WEEKLY rules that start
-    in 9999, whose runs reach the cut-off last week, and BYEASTER rules that start after 4090 are counted as NOT
-    covered): is a rule of the specification's domain covered by one of the loop theorems?"""
+    WITHOUT their n-dependent bounds: the number of passes a run makes is not known here; BYEASTER rules that
+    start after 4090 are counted as NOT covered): is a rule of the specification's domain covered by one of the
+    loop theorems?"""
     if any(abs(n) > 53 for n in (case.get("byweekno") or [])):
         return False
     f = case["freq"]
     if case.get("byeaster") is not None:
         return f <= 3 and 1584 <= case["start"]["y"] <= 4090 and \
             not (f == 2 and week_before_year1(case))
-    if f == 2:
-        return not week_before_year1(case) and case["start"]["y"] < 9999
-    return True        # YEARLY, MONTHLY, DAILY: every rule; sub-daily: every rule (rset's RRSubSpAll)
+    return True        # YEARLY, MONTHLY, WEEKLY, DAILY: every rule; sub-daily: every rule (rset's RRSubSpAll)
 
 
 def evaluate(case, oracle, model=None):
@@ -707,6 +706,8 @@ def dst_case(rnd):
         s["y"] = rnd.randint(1990, 2040)
         if rnd.random() < 0.6:
             s["m"], s["d"] = rnd.choice([(3, 1), (3, 8), (3, 25), (10, 1), (10, 25), (11, 1), (4, 1), (9, 20)])
+        import calendar
+        s["d"] = min(s["d"], calendar.monthrange(s["y"], s["m"])[1])
         case["until"] = None
         if case.get("count") is None and rnd.random() < 0.3:
             case["count"] = rnd.choice([1, 3, 10, 40])
